@@ -298,7 +298,9 @@ func init() {
 		Floor: 40,
 		Doc:   "for each reusable/pooled struct and its re-initialiser every field is re-established: clear-restore initialisers clear the whole struct and may restore only sanitised values (reset()/Clear() called on them, or re-sliced to [:0]) or listed scratch; field-wise initialisers store to / Reset every field, except listed configuration or scratch fields (each with its reason) and fields unconditionally assigned on entry of the constructor path; listed slices are zeroed over their whole range. A new field is a violation until classified",
 		Run: func(c *Ctx, scope string, r *Report) {
-			for _, sp := range resetSpecs {
+			specs := append([]resetSpec{}, resetSpecs...)
+			for si := 0; si < len(specs); si++ {
+				sp := specs[si]
 				fn := c.MustFn(sp.fn)
 				st := c.StructOf(sp.typ)
 				targets := targetsOf(fn, sp.target)
@@ -350,6 +352,35 @@ func init() {
 					}
 					key := sp.fn + "/clear"
 					if clear == nil {
+						// no whole-struct clear: the reuse may have become a field-by-field reset in a
+						// helper that is handed the object - then every field has to be re-established there
+						var helper *ssa.Function
+						hidx, best := 0, 0
+						for _, b := range fn.Blocks {
+							for _, ins := range b.Instrs {
+								ci, ok := ins.(ssa.CallInstruction)
+								if !ok {
+									continue
+								}
+								sc := ci.Common().StaticCallee()
+								if sc == nil || !c.inRoot(sc) || sc.Blocks == nil {
+									continue
+								}
+								for ai, a := range ci.Common().Args {
+									if !targets[a] || ai >= len(sc.Params) {
+										continue
+									}
+									if n := len(fieldEvents(sc, targetsOf(sc, ai))); n > best {
+										helper, hidx, best = sc, ai, n
+									}
+								}
+							}
+						}
+						if helper != nil && 2*best >= st.NumFields() {
+							specs = append(specs, resetSpec{typ: sp.typ, fn: fnName(helper), target: hidx, mode: "fieldwise", exempt: sp.exempt})
+							r.ok(key, sp.fn, c.pos(fn.Pos()), "the reused "+sp.typ+" is reset field by field in "+fnName(helper)+" (checked there)")
+							continue
+						}
 						r.bad(key, sp.fn, c.pos(fn.Pos()), "reused "+sp.typ+" is not cleared as a whole (*rv = "+sp.typ+"{}): every field not explicitly restored would carry over")
 						continue
 					}
